@@ -119,21 +119,8 @@ def verifier_gate(R, rule, vs):
         R.check(rule, "verifier:single-verification", len(vcalls) == 1 and not inner, "one Verifier::verify call, none in closures", "the verifier performs %d signature verifications (+%d in closures): a signature may be accepted under a key other than the one named by the request" % (len(vcalls), len(inner)))
 
 
-def run(F, R):
-    c = F.client
-    W = flow.World([c])
-    R.trust("p256/ecdsa signature verification, sha2, hex::decode, http::HeaderValue::to_str")
-    R.assume("cryptographic validity and the 'if' direction (every authentic response is accepted) are not decided; panics inside hex/p256/ecdsa are out of scope")
-    vr = lib.one(R, "C01-R1", c, "verify_response impl for StandardCupv2Handler", item="verify_response", impl_self=H, impl_trait="cup_ecdsa::Cupv2RequestHandler")
-    vs = lib.one(R, "C01-R1", c, "verify_response_with_signature impl", item="verify_response_with_signature", impl_self=H, impl_trait="cup_ecdsa::Cupv2Verifier")
-    mth = lib.one(R, "C01-R3", c, "make_transaction_hash", item="make_transaction_hash", kind="fn", name_contains="cup_ecdsa::make_transaction_hash")
-    pe = lib.one(R, "C01-R6", c, "parse_etag", item="parse_etag", kind="fn")
-    if not (vr and vs and mth and pe):
-        return
-    R.count("bodies", 4)
-
-    # ---------------------------------------------------------------- R1 accept path gated by every check
-    R.rule("C01-R1", "Ok(signature) is returned only behind the equal edge of the request-hash comparison and the success edge of the signature verification (path rule over verify_response and the helpers it calls); the compared hash and the verified signature are the Ok payloads of hex(hash half) / DER(hex(signature half)) of the ETag header of this response split at ':' (a payload exists only on the success edge of its check, so presence, text, split, hex and DER checks are implied); the verifier's Ok passes key lookup and ECDSA verify")
+def accept_gates(R, rule, W, vr):
+    """Control gates and provenance of StandardCupv2Handler::verify_response (shared by C01-R1 and, as premise, C02-R0)."""
     from .. import optnorm
     from ..sm import reach_pf
     names_vr = {1: "self", 2: "metadata", 3: "resp", 4: "key_id"}
@@ -146,7 +133,7 @@ def run(F, R):
     S1 = flow.Super(W, vr.id)
     live1 = S1.reach([S1.root.entry])
     oks = [n.idx for n in S1.nodes if n.ctx is S1.root and n.idx in live1 and any(s_["k"] == "assign" and not s_["p"].get("p") and s_["p"]["l"] == 0 and s_["r"]["k"] == "agg" and s_["r"].get("vn") == "Ok" for s_ in n.block["s"])]
-    if R.floor("C01-R1", "Ok returns in verify_response", len(oks), 1):
+    if R.floor(rule, "Ok returns in verify_response", len(oks), 1):
         # (a) control: the comparison
         eq_edges = []
         cmp_nodes = []
@@ -171,11 +158,11 @@ def run(F, R):
                         truth = ((l_[2] != 0) != flip)
                         if truth == term[1].endswith("::eq"):
                             eq_edges.append((n.idx, b))
-        if R.floor("C01-R1", "comparison of the request-body digest", len(cmp_nodes), 1):
+        if R.floor(rule, "comparison of the request-body digest", len(cmp_nodes), 1):
             r_ = reach_pf(S1, [S1.root.entry], cut_edges=eq_edges)
-            R.check("C01-R1", "check:hash-matches", eq_edges and not (set(oks) & r_), "Ok is reachable only through the equal edge of the request-hash comparison", "a response can be accepted without the request hash matching", cmp_nodes[0][0].loc())
+            R.check(rule, "check:hash-matches", eq_edges and not (set(oks) & r_), "Ok is reachable only through the equal edge of the request-hash comparison", "a response can be accepted without the request hash matching", cmp_nodes[0][0].loc())
             other = [x for x in cmp_nodes[0][1] if x != EXP_DIGEST]
-            R.check("C01-R1", "compared-hash", other == [EXP_HASH], "digest(request body) == %s" % EXP_HASH,
+            R.check(rule, "compared-hash", other == [EXP_HASH], "digest(request body) == %s" % EXP_HASH,
                     "the request-body digest is compared with %s, expected %s (whole Ok payload of hex-decoding the hash half of this response's ETag)" % ([o[:200] for o in other], EXP_HASH), cmp_nodes[0][0].loc())
         # (b) control + data: the signature verification
         ver_edges = []
@@ -195,15 +182,36 @@ def run(F, R):
                 nm = [si.names.get(l_[2], str(l_[2])) for l_ in S1.elabel.get((n.idx, b), []) if l_[0] == "switch" and l_[1] == n.bi]
                 if any(x in ("Continue", "Ok") for x in nm):
                     ver_edges.append((n.idx, b))
-        if R.floor("C01-R1", "calls of the signature verifier", len(ver_calls), 1):
+        if R.floor(rule, "calls of the signature verifier", len(ver_calls), 1):
             r_ = reach_pf(S1, [S1.root.entry], cut_edges=ver_edges)
-            R.check("C01-R1", "check:signature-verifies", ver_edges and not (set(oks) & r_), "Ok is reachable only through the success edge of verify_response_with_signature", "a response can be accepted without its signature having been verified", ver_calls[0].loc())
-            R.check("C01-R1", "single-verification", len(ver_calls) == 1, "one verification call", "%d verification calls" % len(ver_calls))
+            R.check(rule, "check:signature-verifies", ver_edges and not (set(oks) & r_), "Ok is reachable only through the success edge of verify_response_with_signature", "a response can be accepted without its signature having been verified", ver_calls[0].loc())
+            R.check(rule, "single-verification", len(ver_calls) == 1, "one verification call", "%d verification calls" % len(ver_calls))
             sig = canon_of(ver_calls[0].ctx.bv, S1.trace(ver_calls[0], ver_calls[0].term["args"][1]))
-            R.check("C01-R1", "verified-signature", sig == EXP_SIG, "verified signature = " + EXP_SIG, "the verified signature is %s, expected %s" % (sig[:220], EXP_SIG), ver_calls[0].loc())
+            R.check(rule, "verified-signature", sig == EXP_SIG, "verified signature = " + EXP_SIG, "the verified signature is %s, expected %s" % (sig[:220], EXP_SIG), ver_calls[0].loc())
             # verification comes after the hash comparison: the verifier is not even consulted for a mismatching hash
             r2 = reach_pf(S1, [S1.root.entry], cut_edges=eq_edges)
-            R.check("C01-R1", "order:hash-matches<signature-verifies", eq_edges and not any(v.idx in r2 for v in ver_calls), "hash comparison before signature verification", "the signature is verified on a path that has not passed the request-hash comparison")
+            R.check(rule, "order:hash-matches<signature-verifies", eq_edges and not any(v.idx in r2 for v in ver_calls), "hash comparison before signature verification", "the signature is verified on a path that has not passed the request-hash comparison")
+    return {"canon_of": canon_of, "EXP_DIGEST": EXP_DIGEST, "EXP_HASH": EXP_HASH, "EXP_SIG": EXP_SIG, "names_vr": names_vr, "oks": oks}
+
+
+def run(F, R):
+    c = F.client
+    W = flow.World([c])
+    R.trust("p256/ecdsa signature verification, sha2, hex::decode, http::HeaderValue::to_str")
+    R.assume("cryptographic validity and the 'if' direction (every authentic response is accepted) are not decided; panics inside hex/p256/ecdsa are out of scope")
+    vr = lib.one(R, "C01-R1", c, "verify_response impl for StandardCupv2Handler", item="verify_response", impl_self=H, impl_trait="cup_ecdsa::Cupv2RequestHandler")
+    vs = lib.one(R, "C01-R1", c, "verify_response_with_signature impl", item="verify_response_with_signature", impl_self=H, impl_trait="cup_ecdsa::Cupv2Verifier")
+    mth = lib.one(R, "C01-R3", c, "make_transaction_hash", item="make_transaction_hash", kind="fn", name_contains="cup_ecdsa::make_transaction_hash")
+    pe = lib.one(R, "C01-R6", c, "parse_etag", item="parse_etag", kind="fn")
+    if not (vr and vs and mth and pe):
+        return
+    R.count("bodies", 4)
+
+    # ---------------------------------------------------------------- R1 accept path gated by every check
+    R.rule("C01-R1", "Ok(signature) is returned only behind the equal edge of the request-hash comparison and the success edge of the signature verification (path rule over verify_response and the helpers it calls); the compared hash and the verified signature are the Ok payloads of hex(hash half) / DER(hex(signature half)) of the ETag header of this response split at ':' (a payload exists only on the success edge of its check, so presence, text, split, hex and DER checks are implied); the verifier's Ok passes key lookup and ECDSA verify")
+    g_ = accept_gates(R, "C01-R1", W, vr)
+    canon_of, EXP_DIGEST, EXP_HASH, EXP_SIG, names_vr, oks = g_["canon_of"], g_["EXP_DIGEST"], g_["EXP_HASH"], g_["EXP_SIG"], g_["names_vr"], g_["oks"]
+    from .. import optnorm
     verifier_gate(R, "C01-R1", vs)
 
     # ---------------------------------------------------------------- R2 argument positions
